@@ -235,6 +235,8 @@ func compositeOpts(kind, fam string) []string {
 }
 
 // pool: the field specs a slot of a two-field type ranges over.
+var smallPool bool
+
 func pool(slot int, fam string) []FieldSpec {
 	sl := slots[slot]
 	var out []FieldSpec
@@ -244,7 +246,10 @@ func pool(slot int, fam string) []FieldSpec {
 		}
 	}
 	for _, k := range compositeKinds {
-		for _, in := range innerVariantsSmall(sl, fam) {
+		for vi, in := range innerVariantsSmall(sl, fam) {
+			if smallPool && fam == "A" && (vi == 1 || vi == 3) {
+				continue
+			}
 			for _, o := range compositeOpts(k, fam) {
 				f := FieldSpec{Go: sl.goName, Tag: sl.tag, Kind: k, Opt: o, Inner: in}
 				if k == kEmbed {
